@@ -530,6 +530,126 @@ static const struct inv_s invs[] = {
 	{"dsort", "locale-in", {"--from-locale", "de_DE", "-i", "%d %b %Y", NULL}, IN_DE},
 	{"dsort", "from-zone", {"--from-zone", "Europe/Berlin", NULL}, "2012-03-04T12:00:00 b\n2012-03-04T11:00:00 a\n"},
 	{"dsort", "time-fmt-nobase", {"-i", "%H:%M:%S", NULL}, IN_SORT_T},
+
+	/* ---- position matrix: every position that a tool parses as a date/time under -i and --base,
+	 * with exactly that position underspecified (md = month-day, d = day, y2 = %y, y1 = %_y,
+	 * t = time of day whose date matters through a zone), the other positions fully specified so
+	 * that the result depends on the filled-in fields; option orders --base B -i F (bi) and
+	 * -i F --base B (ib) alternate.  Appended at the end: case strings index this array. */
+#define BI(F)	"--base", "2012-06-15", "-i", F
+#define IB(F)	"-i", F, "--base", "2012-06-15"
+#define F_MD	"%m-%d"
+#define F_D	"%d"
+#define F_Y2	"%y-%m-%d"
+#define F_Y1	"%_y %m %d"
+#define IN_MD	"03-03\nx 03-04 y\n12-01\n02-29\n"
+#define IN_D	"03\n17\n30\n"
+#define IN_Y2	"12-03-04\nx 45-03-05 y\n99-01-01\n50-06-15\n"
+#define IN_Y1	"2 03 04\n7 03 05\n1 01 01\n"
+#define IN_FULL	"2012/03/03\n2012/03/04\n2012/12/01\n2045/03/04\n2017/03/04\n1945/03/04\n2012/06/17\n2012/06/16\n"
+	/* dconv: argument */
+	{"dconv", "p-arg-md-ib", {IB(F_MD), "03-04", "-f", "%F", NULL}, NULL},
+	{"dconv", "p-arg-d-ib", {IB(F_D), "17", "-f", "%F", NULL}, NULL},
+	{"dconv", "p-arg-y2-bi", {BI(F_Y2), "45-03-04", "99-03-04", "-f", "%F", NULL}, NULL},
+	{"dconv", "p-arg-y1-ib", {IB(F_Y1), "7 03 04", "1 03 04", "-f", "%F", NULL}, NULL},
+	{"dconv", "p-arg-t-zone-bi", {"--base", "2012-01-15", "--from-zone", "Europe/Berlin", "-i", "%H:%M:%S", "12:00:00", "-f", "%T", NULL}, NULL},
+	/* dconv: stdin lines, plain and sed mode */
+	{"dconv", "p-stdin-md-bi", {BI(F_MD), "-f", "%F", NULL}, IN_MD},
+	{"dconv", "p-stdin-md-ib", {IB(F_MD), "-f", "%F", NULL}, IN_MD},
+	{"dconv", "p-stdin-d-bi", {BI(F_D), "-f", "%F", NULL}, IN_D},
+	{"dconv", "p-stdin-y2-ib", {IB(F_Y2), "-f", "%F", NULL}, IN_Y2},
+	{"dconv", "p-stdin-y1-bi", {BI(F_Y1), "-f", "%F", NULL}, IN_Y1},
+	{"dconv", "p-sed-md-ib", {"-S", IB(F_MD), "-f", "%F", NULL}, IN_MD},
+	{"dconv", "p-sed-y2-bi", {"-S", BI(F_Y2), "-f", "%F", NULL}, IN_Y2},
+	{"dconv", "p-sed-y1-ib", {"-S", IB(F_Y1), "-f", "%F", NULL}, IN_Y1},
+	{"dconv", "p-stdin-t-zone-ib", {"-i", "%H:%M:%S", "--base", "2012-01-15", "--zone", "Europe/Berlin", "-f", "%T", NULL}, IN_TIMES},
+	/* dadd: DATE argument and stdin lines */
+	{"dadd", "p-arg-md-ib", {IB(F_MD), "02-28", "+1d", "-f", "%F", NULL}, NULL},
+	{"dadd", "p-arg-d-bi", {BI(F_D), "17", "+1mo", "-f", "%F", NULL}, NULL},
+	{"dadd", "p-arg-y2-ib", {IB(F_Y2), "45-03-04", "+1d", "-f", "%F", NULL}, NULL},
+	{"dadd", "p-arg-y1-bi", {BI(F_Y1), "7 03 04", "+1d", "-f", "%F", NULL}, NULL},
+	{"dadd", "p-arg-t-zone-bi", {"--base", "2012-01-15", "--from-zone", "Europe/Berlin", "-i", "%H:%M:%S", "12:00:00", "+1h", "-f", "%T", NULL}, NULL},
+	{"dadd", "p-stdin-md-bi", {BI(F_MD), "+1d", "-f", "%F", NULL}, IN_MD},
+	{"dadd", "p-stdin-d-ib", {IB(F_D), "+1d", "-f", "%F", NULL}, IN_D},
+	{"dadd", "p-stdin-y2-bi", {BI(F_Y2), "+1d", "-f", "%F", NULL}, IN_Y2},
+	{"dadd", "p-stdin-y1-ib", {IB(F_Y1), "+1d", "-f", "%F", NULL}, IN_Y1},
+	{"dadd", "p-sed-md-ib", {"-S", IB(F_MD), "+1d", "-f", "%F", NULL}, IN_MD},
+	/* ddiff: reference DATE, later operands, stdin operands; the other side is complete */
+	{"ddiff", "p-ref-md-bi", {BI(F_MD), "-i", "%Y/%m/%d", "03-04", "2012/12/31", "2013/01/01", NULL}, NULL},
+	{"ddiff", "p-ref-d-ib", {"-i", F_D, "-i", "%Y/%m/%d", "--base", "2012-06-15", "17", "2012/12/31", NULL}, NULL},
+	{"ddiff", "p-ref-y2-ib", {"-i", F_Y2, "-i", "%Y/%m/%d", "--base", "2012-06-15", "45-03-04", "2012/12/31", NULL}, NULL},
+	{"ddiff", "p-ref-y1-bi", {BI(F_Y1), "-i", "%Y/%m/%d", "7 03 04", "2012/12/31", NULL}, NULL},
+	{"ddiff", "p-op-md-ib", {"-i", "%Y/%m/%d", IB(F_MD), "2012/12/31", "03-04", "12-31", NULL}, NULL},
+	{"ddiff", "p-op-d-bi", {"--base", "2012-06-15", "-i", "%Y/%m/%d", "-i", F_D, "2012/12/31", "17", NULL}, NULL},
+	{"ddiff", "p-op-y2-bi", {"--base", "2012-06-15", "-i", "%Y/%m/%d", "-i", F_Y2, "2012/12/31", "45-03-04", "99-03-04", NULL}, NULL},
+	{"ddiff", "p-op-y1-ib", {"-i", "%Y/%m/%d", IB(F_Y1), "2012/12/31", "7 03 04", NULL}, NULL},
+	{"ddiff", "p-stdin-md-bi", {"--base", "2012-06-15", "-i", "%Y/%m/%d", "-i", F_MD, "2012/12/31", NULL}, IN_MD},
+	{"ddiff", "p-stdin-y2-ib", {"-i", "%Y/%m/%d", IB(F_Y2), "2012/12/31", NULL}, IN_Y2},
+	{"ddiff", "p-stdin-d-ib", {"-i", "%Y/%m/%d", IB(F_D), "2012/12/31", NULL}, IN_D},
+	{"ddiff", "p-stdin-y1-bi", {"--base", "2012-06-15", "-i", "%Y/%m/%d", "-i", F_Y1, "2012/12/31", NULL}, IN_Y1},
+	/* dgrep: the date inside the EXPRESSION (bare, OP date, long option); lines complete */
+	{"dgrep", "p-expr-md-op-bi", {BI(F_MD), "-i", "%Y/%m/%d", ">=03-04", NULL}, IN_FULL},
+	{"dgrep", "p-expr-md-op-ib", {"-i", F_MD, "-i", "%Y/%m/%d", "--base", "2012-06-15", ">=03-04", NULL}, IN_FULL},
+	{"dgrep", "p-expr-md-bare-ib", {"-i", F_MD, "-i", "%Y/%m/%d", "--base", "2012-06-15", "03-04", NULL}, IN_FULL},
+	{"dgrep", "p-expr-md-long-bi", {BI(F_MD), "-i", "%Y/%m/%d", "--ge", "03-04", NULL}, IN_FULL},
+	{"dgrep", "p-expr-y2-op-ib", {"-i", F_Y2, "-i", "%Y/%m/%d", "--base", "2012-06-15", "<45-03-04", NULL}, IN_FULL},
+	{"dgrep", "p-expr-y2-bare-bi", {BI(F_Y2), "-i", "%Y/%m/%d", "45-03-04", NULL}, IN_FULL},
+	{"dgrep", "p-expr-y2-long-ib", {"-i", F_Y2, "-i", "%Y/%m/%d", "--base", "2012-06-15", "--lt", "45-03-04", NULL}, IN_FULL},
+	{"dgrep", "p-expr-y1-op-bi", {BI(F_Y1), "-i", "%Y/%m/%d", "<7 03 04", NULL}, IN_FULL},
+	{"dgrep", "p-expr-y1-bare-ib", {"-i", F_Y1, "-i", "%Y/%m/%d", "--base", "2012-06-15", "7 03 04", NULL}, IN_FULL},
+	/* (a bare day number, -i %d, is not accepted as an operand by the expression scanner: no such invocation) */
+	/* dgrep: both sides underspecified (lines and expression filled from the same base) */
+	{"dgrep", "p-both-md-bi", {BI(F_MD), ">=03-04", NULL}, IN_MD},
+	{"dgrep", "p-both-y2-ib", {IB(F_Y2), "<45-03-04", NULL}, IN_Y2},
+	{"dgrep", "p-both-y1-bi", {BI(F_Y1), "<7 03 04", NULL}, IN_Y1},
+	/* dgrep: lines underspecified, expression complete */
+	{"dgrep", "p-line-d-ib", {"-i", F_D, "-i", "%Y/%m/%d", "--base", "2012-06-15", ">=2012/06/17", NULL}, IN_D},
+	{"dgrep", "p-line-y2-bi", {"--base", "2012-06-15", "-i", F_Y2, "-i", "%Y/%m/%d", "<2045/03/05", NULL}, IN_Y2},
+	{"dgrep", "p-line-y1-ib", {"-i", F_Y1, "-i", "%Y/%m/%d", "--base", "2012-06-15", "<2017/03/05", NULL}, IN_Y1},
+	/* dround: DATE argument and stdin lines */
+	{"dround", "p-arg-md-ib", {IB(F_MD), "03-04", "Mon", "-f", "%F", NULL}, NULL},
+	{"dround", "p-arg-d-bi", {BI(F_D), "17", "Mon", "-f", "%F", NULL}, NULL},
+	{"dround", "p-arg-y2-ib", {IB(F_Y2), "45-03-04", "Mon", "-f", "%F", NULL}, NULL},
+	{"dround", "p-arg-y1-bi", {BI(F_Y1), "7 03 04", "Mon", "-f", "%F", NULL}, NULL},
+	{"dround", "p-stdin-md-bi", {BI(F_MD), "Mon", "-f", "%F", NULL}, IN_MD},
+	{"dround", "p-stdin-d-ib", {IB(F_D), "Mon", "-f", "%F", NULL}, IN_D},
+	{"dround", "p-stdin-y2-bi", {BI(F_Y2), "Mon", "-f", "%F", NULL}, IN_Y2},
+	{"dround", "p-stdin-y1-ib", {IB(F_Y1), "Mon", "-f", "%F", NULL}, IN_Y1},
+	{"dround", "p-sed-md-ib", {"-S", IB(F_MD), "Mon", "-f", "%F", NULL}, IN_MD},
+	/* dseq: FIRST and LAST, both and only one of them underspecified */
+	{"dseq", "p-both-md-ib", {IB(F_MD), "02-27", "03-02", "-f", "%F", NULL}, NULL},
+	{"dseq", "p-both-d-bi", {BI(F_D), "13", "17", "-f", "%F", NULL}, NULL},
+	{"dseq", "p-both-y2-ib", {IB(F_Y2), "45-03-04", "45-03-07", "-f", "%F", NULL}, NULL},
+	{"dseq", "p-both-y1-bi", {BI(F_Y1), "7 03 04", "7 03 07", "-f", "%F", NULL}, NULL},
+	{"dseq", "p-first-md-bi", {BI(F_MD), "-i", "%Y/%m/%d", "02-27", "2012/03/02", "-f", "%F", NULL}, NULL},
+	{"dseq", "p-last-md-ib", {"-i", F_MD, "-i", "%Y/%m/%d", "--base", "2012-06-15", "2012/02/27", "03-02", "-f", "%F", NULL}, NULL},
+	{"dseq", "p-first-y2-ib", {"-i", F_Y2, "-i", "%Y/%m/%d", "--base", "2012-06-15", "45-03-04", "2045/03/07", "-f", "%F", NULL}, NULL},
+	{"dseq", "p-last-y2-bi", {BI(F_Y2), "-i", "%Y/%m/%d", "2045/03/04", "45-03-07", "-f", "%F", NULL}, NULL},
+	{"dseq", "p-first-d-inc-bi", {BI(F_D), "-i", "%Y/%m/%d", "13", "2d", "2012/06/17", "-f", "%F", NULL}, NULL},
+	{"dseq", "p-last-y1-inc-ib", {"-i", F_Y1, "-i", "%Y/%m/%d", "--base", "2012-06-15", "2017/03/04", "1d", "7 03 07", "-f", "%F", NULL}, NULL},
+	/* dtest: either operand */
+	{"dtest", "p-op1-md-bi", {BI(F_MD), "-i", "%Y/%m/%d", "03-04", "--lt", "2012/06/01", NULL}, NULL},
+	{"dtest", "p-op2-md-ib", {"-i", F_MD, "-i", "%Y/%m/%d", "--base", "2012-06-15", "--cmp", "2012/06/01", "03-04", NULL}, NULL},
+	{"dtest", "p-op1-d-ib", {"-i", F_D, "-i", "%Y/%m/%d", "--base", "2012-06-15", "--cmp", "17", "2012/06/16", NULL}, NULL},
+	{"dtest", "p-op2-d-bi", {BI(F_D), "-i", "%Y/%m/%d", "2012/06/16", "--lt", "17", NULL}, NULL},
+	{"dtest", "p-op1-y2-bi", {BI(F_Y2), "-i", "%Y/%m/%d", "--cmp", "45-03-04", "2012/06/01", NULL}, NULL},
+	{"dtest", "p-op2-y2-ib", {"-i", F_Y2, "-i", "%Y/%m/%d", "--base", "2012-06-15", "2012/06/01", "--lt", "45-03-04", NULL}, NULL},
+	{"dtest", "p-op1-y1-ib", {"-i", F_Y1, "-i", "%Y/%m/%d", "--base", "2012-06-15", "7 03 04", "--gt", "2012/06/01", NULL}, NULL},
+	{"dtest", "p-op2-y1-bi", {BI(F_Y1), "-i", "%Y/%m/%d", "--cmp", "2016/06/01", "7 03 04", NULL}, NULL},
+	{"dtest", "p-both-md-ib", {IB(F_MD), "03-04", "--lt", "12-31", NULL}, NULL},
+	/* dzone: date arguments */
+	{"dzone", "p-arg-md-bi", {"--base", "2012-06-15", "-i", "%m-%dT%H:%M", "Europe/Berlin", "01-15T12:00", "07-15T12:00", NULL}, NULL},
+	{"dzone", "p-arg-d-ib", {"-i", "%dT%H:%M", "--base", "2012-06-15", "America/New_York", "17T12:00", NULL}, NULL},
+	{"dzone", "p-arg-y2-ib", {"-i", "%y-%m-%dT%H:%M", "--base", "2012-06-15", "Europe/Berlin", "45-03-04T12:00", NULL}, NULL},
+	{"dzone", "p-arg-y1-bi", {"--base", "2012-06-15", "-i", "%_y %m %dT%H:%M", "Europe/Berlin", "7 03 04T12:00", NULL}, NULL},
+	{"dzone", "p-arg-t-ib", {"-i", "%H:%M:%S", "--base", "2012-01-15", "Europe/Berlin", "America/New_York", "12:00:00", NULL}, NULL},
+	{"dzone", "p-arg-t-next-bi", {"--base", "2012-01-15", "--next", "Europe/Berlin", "12:00:00", NULL}, NULL},
+	{"dzone", "p-arg-md-from-zone-ib", {"-i", "%m-%dT%H:%M", "--base", "2012-06-15", "--from-zone", "Asia/Tokyo", "Europe/Berlin", "01-15T12:00", NULL}, NULL},
+	/* dsort: lines (real binary) */
+	{"dsort", "p-line-md-bi", {BI(F_MD), NULL}, IN_MD},
+	{"dsort", "p-line-d-ib", {IB(F_D), NULL}, IN_D},
+	{"dsort", "p-line-y2-ib", {IB(F_Y2), NULL}, IN_Y2},
+	{"dsort", "p-line-y1-bi", {BI(F_Y1), NULL}, IN_Y1},
 };
 #define NINV_ALL	((int)(sizeof(invs) / sizeof(*invs)))
 
@@ -1115,7 +1235,8 @@ main(int argc, char *argv[])
 	}
 
 	ex_meta("rule", "tool %s: every invocation of a fixed list (fully specified inputs incl. complete times of day, or underspecified inputs together with --base: "
-		"%%y, %%_y, month-day, day, time-only) x every TZ value x every joint setting of (LANG, LC_ALL, LC_TIME) x every system clock reading; "
+		"%%y, %%_y, month-day, day, time-only -- the latter as a position matrix: each argument / stdin line / expression operand that the tool parses as a date is in turn "
+		"the only underspecified one, option orders --base B -i F and -i F --base B) x every TZ value x every joint setting of (LANG, LC_ALL, LC_TIME) x every system clock reading; "
 		"the tool's main() runs in a forked child with the harness's clock and a cleared environment (dsort: the real binary, environment only). "
 		"Oracle: stdout and exit status/signal equal those of the reference configuration (TZ, LANG, LC_* unset, clock 951782400); class key names the "
 		"single dimensions that alone change the result. Tripwire reading: a call of localtime, localtime_r, mktime, timelocal, ctime, ctime_r, strftime, "
